@@ -296,7 +296,7 @@ fn parse_case(rep: &mut Report, rng: &mut Rng) {
     let budget = 3 + rng.below(12) as i32;
     SentenceGen::new(rng, budget).expression(&mut parts);
     let s = join_tokens(&parts, rng);
-    let candidate = match rng.below(4) {
+    let candidate = match rng.below(6) {
         0 => mutate_tokens(&s, rng).unwrap_or(s),
         1 => {
             // truncate at a random char boundary
@@ -308,6 +308,8 @@ fn parse_case(rep: &mut Report, rng: &mut Rng) {
             }
         }
         2 => format!("{}{}", prefix(rng), char_soup(rng, 12)),
+        3 => refimpl::sentence::long_token_case(rng),
+        4 => format!("{}{}", prefix(rng), refimpl::sentence::lookalike_case(rng)),
         _ => format!("{}\n{}", s, char_soup(rng, 6)),
     };
     rep.evaluations += 1;
